@@ -385,6 +385,12 @@ class ProvRecord(object):
                 value = self._auto_literal_conversion(literal.value)
             if value is not None:
                 return value
+            if isinstance(literal.datatype, QualifiedName):
+                # make sure the datatype's namespace is registered (and hence
+                # declared when serialized) in this bundle
+                datatype = self._bundle.valid_qualified_name(literal.datatype)
+                if datatype is not literal.datatype:
+                    return Literal(literal.value, datatype)
 
         # No conversion possible, return the original value
         return literal
